@@ -90,11 +90,15 @@ where
     pub fn pop_timeout(&self, timeout: Duration) -> Option<T> {
         let mut queue = self.queue.lock().unwrap();
         let mut duration = timeout;
+        let mut expired = false;
         loop {
             match queue.pop_front() {
                 Some(Control::Elem(value)) => return Some(value),
                 Some(Control::Unblock) => return None,
                 None => (),
+            }
+            if expired {
+                return None;
             }
             let now = Instant::now();
             let (_queue, result) = self.condvar.wait_timeout(queue, timeout).unwrap();
@@ -108,7 +112,9 @@ where
             if result.timed_out()
                 || (duration.as_secs() == 0 && duration.subsec_nanos() < 1_000_000)
             {
-                return None;
+                // look at the queue once more before giving up: the wake-up may have
+                // been the notification of an element that nobody else will be told about
+                expired = true;
             }
         }
     }
